@@ -93,7 +93,7 @@ def out(v):
 
 
 def fn_case(case):
-    ctx = Ctx(mk_params(case['params']), {}, {})
+    ctx = long_lived(Ctx, mk_params(case['params']), {}, {})
     l, s, m, r = case['args']
     return {'fee': out(lambda: U.fee(ctx, l, s, m, r)), 'max': out(lambda: U.max_tx_fee(ctx, r)),
             'tier': out(lambda: U.tiered_reference_script_fee(ctx, r))}
@@ -196,7 +196,7 @@ def build_case(case):
     for u, lit in zip(utxos, sc['utxos']):
         if lit.get('how') == 'pool':
             pool.setdefault(str(u.output.address), []).append(u)
-    ctx = Ctx(mk_params(case['params']), pool, {k: tuple(v) for k, v in sc.get('eval', {}).items()})
+    ctx = long_lived(Ctx, mk_params(case['params']), pool, {k: tuple(v) for k, v in sc.get('eval', {}).items()})
     calls, last_fake = [], {}
     orig_est, orig_fake = TransactionBuilder._estimate_fee, TransactionBuilder._build_full_fake_tx
 
